@@ -50,18 +50,19 @@ type tierCfg struct {
 	entropy   int
 	freshKeys int
 	files     int // seal -> write file -> load -> unseal round trips through the stored file
+	histories int // operation sequences on ONE question model against a reference model
 }
 
 func cfg(tier string) tierCfg {
 	if tier == "thorough" {
-		return tierCfg{sealed: 480, allBytes: true, roundtrip: 6000, questions: 6000, entropy: 600, freshKeys: 6, files: 4000}
+		return tierCfg{sealed: 480, allBytes: true, roundtrip: 6000, questions: 6000, entropy: 600, freshKeys: 6, files: 4000, histories: 6000}
 	}
-	return tierCfg{sealed: 16, allBytes: false, roundtrip: 1900, questions: 260, entropy: 40, files: 160}
+	return tierCfg{sealed: 16, allBytes: false, roundtrip: 1900, questions: 260, entropy: 40, files: 160, histories: 240}
 }
 
 func (d *D) Count(tier string) int {
 	c := cfg(tier)
-	return c.sealed + c.roundtrip + c.questions + c.entropy + c.files
+	return c.sealed + c.roundtrip + c.questions + c.entropy + c.files + c.histories
 }
 
 func setPlain(sc *core.Scenario, p string) {
@@ -194,6 +195,15 @@ func (d *D) Base(idx int, ctx *core.Ctx) *core.Scenario {
 		if r.Chance(0.5) {
 			sc.Sealed["entropy_short"] = "1"
 		}
+	case idx >= c.sealed+c.roundtrip+c.entropy+c.questions+c.files:
+		sc.Kind = "model-history"
+		sc.Sealed["ops"] = fmt.Sprint(r.Range(6, 14))
+		sc.Sealed["matching"] = fmt.Sprint(1 + r.Intn(7))
+		sc.Sealed["start_sealed"] = []string{"0", "1"}[r.Intn(2)]
+		sc.Sealed["op_seed"] = fmt.Sprint(r.Uint64() >> 1)
+		sc.Sealed["public_key2"] = keys[(idx+1)%len(keys)].Public
+		sc.Sealed["private_key2"] = keys[(idx+1)%len(keys)].Private
+		k = keys[idx%len(keys)]
 	case idx >= c.sealed+c.roundtrip+c.entropy+c.questions:
 		sc.Kind = "file-roundtrip"
 		setPlain(sc, fileText(r))
@@ -861,8 +871,135 @@ func (d *D) runFile(sc *core.Scenario, ctx *core.Ctx) *core.Violation {
 	return v
 }
 
+// runHistory drives ONE question model through a seeded sequence of operations
+// (verify, unseal, change the answer, seal for this key or another one) and
+// checks every step against a three-line reference model: the current
+// plaintext answer, whether it is sealed, and for which key.
+func (d *D) runHistory(sc *core.Scenario, ctx *core.Ctx) *core.Violation {
+	var nops, matching int
+	var opSeed uint64
+	fmt.Sscan(sc.Sealed["ops"], &nops)          //nolint:errcheck
+	fmt.Sscan(sc.Sealed["matching"], &matching) //nolint:errcheck
+	fmt.Sscan(sc.Sealed["op_seed"], &opSeed)    //nolint:errcheck
+	pub1, priv1 := sc.Sealed["public_key"], sc.Sealed["private_key"]
+	pub2 := sc.Sealed["public_key2"]
+	if pub2 == pub1 {
+		pub2 = ""
+	}
+	const n = 3
+	r := prng.New(opSeed)
+	plain := letters(1+r.Intn(7), n)
+	sealed := sc.Sealed["start_sealed"] == "1"
+	forKey1 := true
+	line := "answer: " + plain
+	if sealed {
+		var sv string
+		var err error
+		withEntropy(&entropy{r: prng.Derive(sc.Seed, uint64(sc.Index), 11), limit: -1}, func() { sv, err = learn.Encrypt(pub1, plain) })
+		if err != nil {
+			return nil
+		}
+		line = "sealed-answer: " + sv
+	}
+	path := d.writeQ(questionMD(line, true, n, matching, 2))
+	var v *core.Violation
+	var trace []string
+	p := guard(func() {
+		m, err := learn.NewQuestionModel(path, learn.WithPrivateKey(priv1))
+		if err != nil {
+			return
+		}
+		bad := func(what string, extra map[string]any) {
+			obs := map[string]any{"operations": trace, "failed_at": what, "reference_answer": plain, "reference_sealed": sealed, "sealed_for_the_models_key": forKey1,
+				"answer_now": m.Frontmatter.Answer, "sealed_now": short(m.Frontmatter.SealedAnswer), "choices_matching": letters(matching, n)}
+			for k, x := range extra { // merged into a map that json sorts
+				obs[k] = x
+			}
+			v = &core.Violation{Oracle: "model-history", Signature: "history:" + what,
+				Expected: "after any sequence of verify / unseal / change / seal on one question, unsealing returns the answer that was sealed last (or fails for another key) and verification judges that answer",
+				Observed: obs, Match: map[string]string{"oracle": "model-history", "step": what}}
+		}
+		for i := 0; i < nops && v == nil; i++ {
+			switch op := r.Intn(5); {
+			case op == 0: // verify
+				trace = append(trace, "verify")
+				err := m.Verify()
+				if sealed && !forKey1 {
+					if err == nil {
+						bad("verify-with-foreign-key-passed", nil)
+					}
+					continue
+				}
+				want := plain == letters(matching, n)
+				if (err == nil) != want {
+					bad("verify", map[string]any{"verify_error": fmt.Sprint(err), "expected_to_pass": want})
+				}
+			case op == 1: // unseal
+				trace = append(trace, "unseal")
+				err := m.Unseal()
+				switch {
+				case !sealed:
+					if err != nil || m.Frontmatter.Answer != plain {
+						bad("unseal-on-unsealed", map[string]any{"error": fmt.Sprint(err)})
+					}
+				case forKey1:
+					if err != nil || m.Frontmatter.Answer != plain || m.Frontmatter.SealedAnswer != "" {
+						bad("unseal", map[string]any{"error": fmt.Sprint(err)})
+					}
+					sealed = false
+				default:
+					if err == nil && m.Frontmatter.Answer != plain {
+						bad("unseal-foreign-key-gave-another-answer", nil)
+					}
+					if err == nil {
+						sealed = false // opened to the original: allowed by the statement (cannot happen with RSA)
+					}
+				}
+			case op == 2: // change the answer (only possible while unsealed)
+				if sealed {
+					continue
+				}
+				plain = letters(1+r.Intn(7), n)
+				trace = append(trace, "answer="+plain)
+				m.Frontmatter.Answer = plain
+			default: // seal, for this model's key or for another one
+				pub, mine := pub1, true
+				if pub2 != "" && r.Chance(0.3) {
+					pub, mine = pub2, false
+				}
+				trace = append(trace, map[bool]string{true: "seal(own key)", false: "seal(other key)"}[mine])
+				var err error
+				withEntropy(&entropy{r: prng.Derive(sc.Seed, uint64(sc.Index), uint64(100+i)), limit: -1}, func() { err = m.Seal(pub) })
+				if err != nil {
+					bad("seal", map[string]any{"error": err.Error()})
+					continue
+				}
+				if !sealed {
+					if m.Frontmatter.Answer != "" || m.Frontmatter.SealedAnswer == "" {
+						bad("seal-left-plaintext", nil)
+					}
+					sealed, forKey1 = true, mine
+				}
+			}
+		}
+	})
+	if ctx != nil {
+		ctx.Inc("evaluations", int64(len(trace)))
+		ctx.Inc("model_history_operations", int64(len(trace)))
+		ctx.Inc("model_histories", 1)
+		ctx.Distinct(prng.HashString("hist" + strings.Join(trace, ",")))
+		ctx.Sched(prng.HashString(strings.Join(trace, ",")))
+	}
+	if p != "" {
+		return &core.Violation{Oracle: "no-panic", Signature: "panic:model-history", Expected: "no operation sequence crashes", Observed: map[string]any{"panic": p, "operations": trace}, Match: map[string]string{"oracle": "panic"}}
+	}
+	return v
+}
+
 func (d *D) run(sc *core.Scenario, ctx *core.Ctx, tier string) *core.Violation {
 	switch sc.Kind {
+	case "model-history":
+		return d.runHistory(sc, ctx)
 	case "file-roundtrip":
 		return d.runFile(sc, ctx)
 	case "corruption":
@@ -918,7 +1055,7 @@ func (d *D) Describe(ev *core.Evidence, st *core.Stats) {
 	faults["entropy-source-failed"] = c["entropy_fault_made_encrypt_fail"]
 	ev.Coverage["faults_injected"] = faults
 	ev.Coverage["probes"] = map[string]int64{"damaged_values_still_opening_to_original": c["damaged_values_still_opening_to_original"], "wrong_key_opened_to_original": c["wrong_key_opened_to_original"],
-		"verifications": c["verifications"], "verifications_of_corrupted_sealed_files": c["verifications_of_corrupted_sealed_files"], "roundtrips": c["roundtrips"], "frontmatter_roundtrips": c["frontmatter_roundtrips"], "file_roundtrips": c["file_roundtrips"]}
+		"verifications": c["verifications"], "verifications_of_corrupted_sealed_files": c["verifications_of_corrupted_sealed_files"], "roundtrips": c["roundtrips"], "frontmatter_roundtrips": c["frontmatter_roundtrips"], "file_roundtrips": c["file_roundtrips"], "model_histories": c["model_histories"], "model_history_operations": c["model_history_operations"]}
 	ev.Coverage["components"] = map[string][]string{"real": {"learn.Encrypt/Decrypt (RSA-OAEP + AES-GCM envelope)", "questionFrontmatter Seal/Unseal/getAnswer", "QuestionModel: markdown parsing, Verify, verifyChoiceMatch, correctAnswerIndices", "runEvy (the real evaluator produces every output)"},
 		"stub": {"crypto/rand.Reader (seeded stream, made to fail or run short)", "stored sealed value (damaged by the simulator)"}}
 	ev.Assumptions = []string{
